@@ -919,8 +919,17 @@ class Shelxfile():
 
     @staticmethod
     def _coordinates_are_unrealistic(spline: List[str]) -> bool:
+        def is_unrealistic(value: str) -> bool:
+            v = abs(float(value))
+            if v <= 4.0:
+                return False
+            # 10 is added to fix a coordinate and 10*m to tie it to the free variable m. Only remainders
+            # below 1.0 are accepted, otherwise a site occupation factor like 11.0 would look like a coordinate:
+            remainder = v % 10
+            return min(remainder, 10 - remainder) >= 1.0
+
         try:
-            return any(float(y) > 4.0 for y in spline[2:5])
+            return any(is_unrealistic(y) for y in spline[2:5])
         except ValueError:
             # Not a number, this can not be an atom:
             return True
